@@ -139,6 +139,43 @@ def burst_is_guaranteed(cfg: str, burst_len: int) -> bool:
     return (GENERATORS[cfg] & 1) == 1 and 1 <= burst_len <= WIDTH[cfg]
 
 
+# ------------------------------------------------------------------------------------------------ steering the output
+
+
+def solve_affine(f, nbits: int, target: int):
+    """``f`` maps an nbits-bit window value (int) to a CRC value (int) and is affine over GF(2) (every CRC front end is:
+    remainder is linear, inversion and mask are constant XORs).  Measures f on 0 and on the nbits unit windows (reference
+    only), then solves f(X) == target by Gaussian elimination.  Returns X (free variables 0) or None when the target is not
+    in the image."""
+    c = f(0)
+    basis = {}  # pivot bit -> (image vector, combination of window bits producing it)
+    for i in range(nbits):
+        v, comb = f(1 << i) ^ c, 1 << i
+        while v:
+            piv = v.bit_length() - 1
+            if piv not in basis:
+                basis[piv] = (v, comb)
+                break
+            bv, bc = basis[piv]
+            v ^= bv
+            comb ^= bc
+    t, x = target ^ c, 0
+    while t:
+        piv = t.bit_length() - 1
+        if piv not in basis:
+            return None
+        bv, bc = basis[piv]
+        t ^= bv
+        x ^= bc
+    return x
+
+
+def extreme_values(w: int) -> Dict[str, int]:
+    """the output values at the edges of the w-bit range"""
+    full = (1 << w) - 1
+    return {"zero": 0, "all_ones": full, "one": 1, "top_bit_only": 1 << (w - 1), "all_ones_minus_1": full - 1, "top_bit_clear": full >> 1}
+
+
 def self_test():
     """Reference vs values captured from real radios (quoted from ETSI-conformant equipment in the repository's tests);
     a failure here is a harness error, not a finding."""
@@ -154,3 +191,7 @@ def self_test():
     # message CRC-32 (transmitted least significant octet first)
     assert crc32(bytes.fromhex("d6790062620003bf000700000000000000000000")) == int.from_bytes(bytes.fromhex("210b9a3d"), "little")
     assert gf2.order_of_x(GENERATORS["crc16"]) == 32767
+    # steering: a 16-bit window after a fixed prefix hits any CRC-CCITT value
+    f = lambda x: crc16(b"\x12\x34" + x.to_bytes(2, "big") + b"\x56", MASKS16["CSBK"])
+    for t in (0, 0xFFFF, 1, 0x8000):
+        assert f(solve_affine(f, 16, t)) == t
